@@ -77,6 +77,9 @@ pub fn classify(ctx: &mut Ctx, m: &Movie) -> bool {
     if m.tracks.len() >= 2 {
         ctx.count("movie:multi-track");
     }
+    if m.large_moof {
+        ctx.count("movie:moof-with-64-bit-size-header");
+    }
     nontrivial
 }
 
